@@ -475,7 +475,7 @@ func (rw *rewriter) lockCall(ce *ast.CallExpr) (recv ast.Expr, method string, ok
 		return
 	}
 	switch sel.Sel.Name {
-	case "Lock", "Unlock", "RLock", "RUnlock":
+	case "Lock", "Unlock", "RLock", "RUnlock", "TryLock":
 	default:
 		return
 	}
@@ -489,7 +489,8 @@ func (rw *rewriter) lockCall(ce *ast.CallExpr) (recv ast.Expr, method string, ok
 	}
 	full := fn.FullName()
 	switch full {
-	case "(*sync.RWMutex).Lock", "(*sync.RWMutex).Unlock", "(*sync.RWMutex).RLock", "(*sync.RWMutex).RUnlock",
+	case "(*sync.Mutex).TryLock", "(*sync.RWMutex).TryLock", "(" + modPath + ".Locker).TryLock",
+		"(*sync.RWMutex).Lock", "(*sync.RWMutex).Unlock", "(*sync.RWMutex).RLock", "(*sync.RWMutex).RUnlock",
 		"(*sync.Mutex).Lock", "(*sync.Mutex).Unlock",
 		"(sync.Locker).Lock", "(sync.Locker).Unlock",
 		"(" + modPath + ".Locker).Lock", "(" + modPath + ".Locker).Unlock":
@@ -563,6 +564,8 @@ func (rw *rewriter) post(c *astutil.Cursor) bool {
 				c.Replace(call(rw.rt("RLock"), recv, rw.site(tn)))
 			case "RUnlock":
 				c.Replace(call(rw.rt("RUnlock"), recv))
+			case "TryLock":
+				c.Replace(call(rw.rt("TryLock"), recv, rw.site(tn)))
 			default:
 				c.Replace(call(rw.rt("Unlock"), recv))
 			}
